@@ -68,6 +68,16 @@ type c11Case struct {
 	Config int    `json:"config"` // 0 none, 1 app dictionary, 2 customised transport + app
 	Expect string `json:"expect"` // ok | error
 	Note   string `json:"note,omitempty"`
+	Reuse  int    `json:"reuse,omitempty"` // 0: parsed into a fresh Message; k>0: into a Message that first parsed c11Predecessors[k-1]
+}
+
+// c11Predecessors: messages a Message object has parsed before the case (a Message may be parsed into again;
+// what the second parse exposes must not depend on the first): a long one with signature and custom trailer
+// fields, a group and many body fields; one with XMLData whose content contains the field separator.
+var c11Predecessors = [][]byte{
+	fixscan.Build([]fixscan.Field{{8, "FIXT.1.1"}, {35, "D"}, {49, "A"}, {56, "B"}, {34, "7"}, {50, "S"}, {57, "T"}, {custHdr, "hh"}, {1, "acc"}, {11, "id"}, {453, "2"}, {448, "P1"}, {447, "D"}, {448, "P2"}, {447, "D"},
+		{55, "SYM"}, {54, "1"}, {38, "100"}, {40, "2"}, {44, "1.5"}, {58, "text"}, {59, "0"}, {custTrl, "tt"}, {93, "4"}, {89, "ABCD"}}),
+	fixscan.Build([]fixscan.Field{{8, "FIX.4.4"}, {35, "D"}, {49, "A"}, {212, "13"}, {213, "<a>\x01b=1\x01c</a>"}, {56, "B"}, {11, "id"}, {58, "t"}}),
 }
 
 func c11Section(tag, config int) int {
@@ -126,6 +136,20 @@ func scanData(b []byte) ([]fixscan.Field, error) {
 	return out, nil
 }
 
+func c11ReuseTag(cs c11Case) string {
+	if cs.Reuse > 0 {
+		return " reused-message"
+	}
+	return ""
+}
+
+func c11ReuseText(cs c11Case) string {
+	if cs.Reuse > 0 {
+		return "; parsed into a Message that had parsed " + fixscan.Pretty(c11Predecessors[cs.Reuse-1]) + " before"
+	}
+	return ""
+}
+
 func c11Eval(cs c11Case) (rule, what string) {
 	d, err := c11Load()
 	if err != nil {
@@ -141,6 +165,17 @@ func c11Eval(cs c11Case) (rule, what string) {
 
 func c11EvalInner(cs c11Case, raw []byte, d *c11Dicts) (string, string) {
 	m := quickfix.NewMessage()
+	if cs.Reuse > 0 {
+		prev := append([]byte{}, c11Predecessors[cs.Reuse-1]...)
+		switch cs.Config {
+		case 0:
+			_ = quickfix.ParseMessage(m, bytes.NewBuffer(prev))
+		case 1:
+			_ = quickfix.ParseMessageWithDataDictionary(m, bytes.NewBuffer(prev), nil, d.app44)
+		case 2:
+			_ = quickfix.ParseMessageWithDataDictionary(m, bytes.NewBuffer(prev), d.transport, d.app50)
+		}
+	}
 	in := append([]byte{}, raw...)
 	var err error
 	switch cs.Config {
@@ -158,7 +193,7 @@ func c11EvalInner(cs c11Case, raw []byte, d *c11Dicts) (string, string) {
 		return "", ""
 	}
 	if err != nil {
-		return "C11/A-wellformed-rejected", fmt.Sprintf("%v: %s (config %d)", err, fixscan.Pretty(raw), cs.Config)
+		return "C11/A-wellformed-rejected" + c11ReuseTag(cs), fmt.Sprintf("%v: %s (config %d%s)", err, fixscan.Pretty(raw), cs.Config, c11ReuseText(cs))
 	}
 	fields, serr := scanData(raw)
 	if serr != nil {
@@ -247,7 +282,7 @@ func runC11(c *core.Ctx) {
 	if !quick {
 		maxFields = 7
 	}
-	c.SetRule(fmt.Sprintf("all well-formed messages with <= %d fields after 8/9/35 drawn from a tag universe covering every classifier branch (standard header tags, dictionary-only header/trailer tags, body tags of 1-6 digits, SignatureLength/Signature, XMLDataLen+XMLData with SOH and '=' inside, a dictionary-defined repeating group) x 3 field orders x 5 value rotations x 3 dictionary configurations; plus BodyLength corruptions and all permutations of the three leading fields; independent scanner as oracle", maxFields))
+	c.SetRule(fmt.Sprintf("all well-formed messages with <= %d fields after 8/9/35 drawn from a tag universe covering every classifier branch (standard header tags, dictionary-only header/trailer tags, body tags of 1-6 digits, SignatureLength/Signature, XMLDataLen+XMLData with SOH and '=' inside, a dictionary-defined repeating group) x 3 field orders x 5 value rotations x 3 dictionary configurations, each parsed into a fresh Message and into a Message that parsed one of two other messages before (a long one with signature, custom trailer field and group; one with separators inside XMLData); plus BodyLength corruptions and all permutations of the three leading fields; independent scanner as oracle", maxFields))
 	c.Assume("tags are distinct within a message (except repeating-group members)", "dictionary-only header/trailer tags come from a customised copy of FIXT11.xml")
 	hdrTags := []int{49, 56, 34, 52, 50, 115, 1128, custHdr}
 	bodyTags := []int{1, 11, 55, 58, 9999, 123456}
@@ -278,10 +313,17 @@ func runC11(c *core.Ctx) {
 			defer wg.Done()
 			var n int64
 			for cs := range jobs {
-				rule, what := c11Eval(cs)
-				n++
-				if rule != "" {
-					c.Violation(rule, what, "C11/case", cs)
+				for reuse := 0; reuse <= len(c11Predecessors); reuse++ {
+					cs.Reuse = reuse
+					rule, what := c11Eval(cs)
+					n++
+					if rule != "" {
+						if reuse > 0 && !strings.Contains(rule, "reused-message") {
+							rule += " reused-message"
+							what += c11ReuseText(cs)
+						}
+						c.Violation(rule, what, "C11/case", cs)
+					}
 				}
 			}
 			atomic.AddInt64(&evals, n)
